@@ -1,5 +1,6 @@
 import CookModel.Analysis.Collector
 import CookModel.Lemmas.ExtLawsStep
+import CookModel.Lemmas.ExtLawsAnalysis
 import CookModel.Lemmas.LexLaws
 /-
   C02  Core-syntax recipes parse identically under every extension subset.
@@ -138,6 +139,63 @@ example (cs : CharSpec) : UsesNone cs C02.coreBlock = true := by
   have h1 : metaKeyOf C02.coreBlock = none := rfl
   have h2 : stepCore C02.coreBlock = true := by decide
   simp [UsesNone, metaKeyCore, h1, h2]
+
+/-! ### The main clause, analysis part -/
+
+/-- C02, analysis part (partial): on an event list without bracketed `>>` keys whose texts are not
+    empty and contain no ASCII digit (so that the inline-quantity finder finds nothing:
+    `findInlineQuantity_no_digit`), the analysis pass gives the same result under two extension sets
+    that agree on the ADVANCED_UNITS bit; MODES and INLINE_QUANTITIES (and all bits the analysis never
+    reads) are arbitrary.
+    Missing for the full clause: a syntactic premise on units/timers (timer values numeric, timer
+    units known time units, no reference with a unit incompatible with its definition) in place
+    of the equal ADVANCED_UNITS bit. -/
+theorem C02_analysis_ext_irrelevant_partial (env : Env) (e : Ext) (input : Str) (evs : List (Ev α))
+    (hadv : e.has Gen.EXT_ADVANCED_UNITS = env.ext.has Gen.EXT_ADVANCED_UNITS)
+    (h : evs.all (evCoreA env.cs) = true) :
+    parseEvents (env.withExt e) input evs = parseEvents env input evs :=
+  parseEventsLoop_ext env e hadv input evs h {}
+
+/-- a step text without an ASCII digit contains no inline quantity, whatever the converter knows -/
+theorem C02_no_digit_no_inline_quantity (env : Env) (fuel : Nat) (pre rest : Str)
+    (h : rest.any isAsciiDigitC = false) : findInlineQuantity (α := α) env fuel pre rest = none :=
+  findInlineQuantity_no_digit env fuel pre rest h
+
+/-- the hypothesis on events is satisfiable: a `>> servings: two` entry and the text `Mix well.` -/
+example : ([.metadata (Text.fromStr ['s','e','r','v','i','n','g','s'] 3) (Text.fromStr ['t','w','o'] 13),
+    .text (Text.fromStr ['M','i','x',' ','w','e','l','l','.'] 17)] : List (Ev Rat)).all (evCoreA toyCharSpec) = true := by
+  decide
+
+/-! ### The converse clause, remaining gates: a disabled extension's syntax is core text -/
+
+/-- with ADVANCED_UNITS off `parse_quantity` is exactly the regular quantity parser (value up to
+    `%`, unit after it) run on the tokens between the braces: `{1 kg}` is the text value `1 kg` -/
+theorem C02_advanced_off (q : List Tok) (s : BP α) (h : s.ext.has Gen.EXT_ADVANCED_UNITS = false) :
+    parseQuantity q s =
+      (let s' := ((if q.isEmpty then panicWith "parse_quantity: empty tokens" else pure () : P α Unit) s).2
+       let r := parseRegularQuantity ({ s' with toks := q, cur := 0 } : BP α)
+       (r.1, { r.2 with toks := s'.toks, cur := s'.cur })) :=
+  parseQuantity_advanced_off q s h
+
+/-- with MODES off the analysis treats a `>>` entry with a bracketed key as a plain entry
+    (`metadataPlain`: recorded in the map, checked as a standard key) -/
+theorem C02_modes_off (env : Env) (key value : Text) (h : env.ext.has Gen.EXT_MODES = false) :
+    metadataA (α := α) env key value = metadataPlain env key value :=
+  metadataA_plain env key value (by rw [h, Bool.false_and])
+
+/-- … and `parse_block` keeps or drops a `>>` entry only according to `oldStyle` (no front matter),
+    bracketed key or not (`parseBlockNoModes` is `parse_block` without the MODES clause) -/
+theorem C02_modes_off_parser (oldStyle : Bool) (s : BP α) (h : s.ext.has Gen.EXT_MODES = false) :
+    parseBlock (α := α) oldStyle s = parseBlockNoModes oldStyle s :=
+  parseBlock_modes_off oldStyle s h
+
+/-- with INLINE_QUANTITIES off a text inside a step becomes exactly one text item (outside
+    components mode), digits and units included -/
+theorem C02_inline_off (env : Env) (t : Text) (items : List Item) (s : Col α)
+    (h : env.ext.has Gen.EXT_INLINE_QUANTITIES = false) (hd : s.defineMode ≠ .components) :
+    inStepTextStep env t items s =
+      ((), { s with block := some (BlockBuf.step (items ++ [Item.text t.text])) }) :=
+  inStepTextStep_inline_off env t items s h hd
 
 /-- a coarse observation of an event list (enough to tell the readings apart) -/
 def C02.evTag : Ev Rat → Nat
